@@ -278,6 +278,65 @@ def oracle_reproducible_across_processes(ck):
                      inp={"seed": 3, "n_set": 2}, key={"site": "split-reproducibility", "across": "processes"}, oracle="split_reproducible_across_processes")
 
 
+def halves_partition(stack, hs):
+    """the two half maps are plain means over two disjoint, jointly exhaustive, non-empty parts of the given sub-volumes (membership
+    recovered by least squares: weight 1/k on the k members of a half, 0 elsewhere)"""
+    n = len(stack)
+    A = np.stack([np.asarray(h_).ravel() for h_ in stack]).T.astype(np.float64)
+    if np.linalg.matrix_rank(A) < n:
+        return True            # (sub-volumes not independent: membership cannot be read off)
+    W, *_ = np.linalg.lstsq(A, np.stack([np.asarray(hs[0]).ravel(), np.asarray(hs[1]).ravel()]).T.astype(np.float64), rcond=None)
+    memb = W > 1e-3
+    ok = bool(np.all(memb.sum(axis=1) == 1) and memb[:, 0].any() and memb[:, 1].any())
+    for h in (0, 1):
+        k = int(memb[:, h].sum())
+        ok = ok and k > 0 and bool(np.allclose(W[memb[:, h], h], 1.0 / k, atol=1e-3)) and bool(np.allclose(W[~memb[:, h], h], 0.0, atol=1e-3))
+    return ok
+
+
+def oracle_mock_loader(ck, rng):
+    """a MockLoader is a loader too: its average is the mean of the sub-volumes it loads (asnumpy, load_iter, load), however often it has
+    been used before and at any pixel size; its split halves recombine; its molecules are not changed by loading"""
+    from acryo import MockLoader, Molecules
+    from scipy.spatial.transform import Rotation
+    t = np.zeros((9, 9, 9), np.float32); t[3:6, 2:7, 4:6] = 1.0; t[5, 5, 2:7] = 2.0
+    for it in range(3 if ck.tier == "quick" else 12):
+        n = int(rng.integers(3, 8))
+        scale = [0.5, 2.0, 1.0][it % 3]
+        mol = Molecules(rng.normal(size=(n, 3)) * 0.8 * scale, Rotation.random(n, random_state=int(rng.integers(0, 2**31))), features={"g": [j % 2 for j in range(n)]})
+        pos0 = np.array(mol.pos, copy=True)
+        kw = dict(order=[1, 3][it % 2], scale=scale)
+        if it % 2:
+            kw.update(degrees=np.linspace(-60, 60, 7), noise=0.0)
+        ld = MockLoader(t, mol, **kw)
+        info = {"n": n, "scale": scale, "tilt_series": bool(it % 2), "order": kw["order"], "seed": ck.seed}
+        bad = []
+        try:
+            first = np.asarray(ld.asnumpy())
+            avg1 = np.asarray(ld.average())
+            it_ = np.stack([np.asarray(x) for x in ld.load_iter()])
+            avg2 = np.asarray(ld.average())
+            one = np.stack([np.asarray(ld.load(i)) for i in range(n)])
+            again = np.asarray(ld.asnumpy())
+            if not np.allclose(avg1, first.mean(axis=0), atol=1e-5): bad.append("average() is not the mean of asnumpy()")
+            if not (np.allclose(it_, first, atol=1e-5) and np.allclose(one, first, atol=1e-5) and np.allclose(again, first, atol=1e-5)):
+                bad.append("asnumpy / load_iter / load(i) / a second asnumpy do not return the same sub-volumes")
+            if not np.allclose(avg2, avg1, atol=1e-5): bad.append("two successive average() calls differ")
+            if not np.array_equal(np.asarray(mol.pos), pos0): bad.append("loading changed the positions of the molecules handed to the loader")
+            hs = np.asarray(ld.average_split(n_set=1, seed=1, squeeze=False))[0]
+            if n >= 2 and not halves_partition(first, hs):
+                bad.append("the two half maps are not the means of two disjoint, exhaustive, non-empty parts of the sub-volumes")
+            ga = ld.groupby("g").average()
+            for key in ga:
+                rows = [j for j in range(n) if j % 2 == key]
+                if not np.allclose(np.asarray(ga[key]), first[rows].mean(axis=0), atol=1e-5): bad.append(f"group {key}: average is not the mean of its own molecules' sub-volumes")
+        except Exception as e:  # noqa
+            bad.append(f"raised {type(e).__name__}: {e}")
+        ck.oracle_count("mock_loader_average", 1, 1)
+        if bad:
+            ck.violation(what="MockLoader: " + "; ".join(bad[:3]), inp=info, key={"site": "mock-loader", "symptom": bad[0][:30]}, oracle="mock_loader_average")
+
+
 def run(ck: common.Check):
     ck.design_ref = "DESIGN.md §6 C09"
     ck.trusted_base = TB
@@ -293,6 +352,7 @@ def run(ck: common.Check):
     oracle_generic(ck, rng)
     oracle_batch_histories(ck, rng)
     oracle_reproducible_across_processes(ck)
+    oracle_mock_loader(ck, np.random.default_rng(ck.seed + 9019))
 
 
 def replay(data):
